@@ -1,0 +1,19 @@
+//go:build verif
+
+// Contracts for package snapshot, checked by /verif/govc (comment-only; see /verif/DESIGN.md).
+package snapshot
+
+// ---------------------------------------------------------------- C08: reading committed state back through the diff layers
+// Flattening a diff layer into its parent: an account destructed in the child (and not re-created
+// with storage there) has no storage left in the merged layer, so a read through the snapshot cannot
+// return a slot of the destructed incarnation. (The same statement for the account map needs the
+// account map and the per-account slot maps, which share a Go type, to be known distinct; no
+// precondition within reach says so, so it is not claimed.)
+//@ func (dl *diffLayer) flatten() (r snapshot)
+//@   for C08
+//@   modifies *
+//@   ensures [destructedStorageDropped] dyntype(old(dl.parent)) == typeid(*diffLayer) ==> dyntype(r) == typeid(*diffLayer) && (forall h common.Hash :: has(dl.destructSet, h) && !has(dl.storageData, h) ==> !has(unbox(r, *diffLayer).storageData, h))
+//@   loop 1:
+//@     invariant forall h common.Hash :: visited[h] ==> !has(parent.storageData, h)
+//@   loop 3:
+//@     invariant forall h common.Hash :: has(dl.destructSet, h) && !has(dl.storageData, h) ==> !has(parent.storageData, h)
